@@ -375,7 +375,9 @@ Proof. exact tx_evo_command_agree. Qed.
 Print Assumptions C13_agree_text.
 
 (** end to end on the worklist, from the text of the appended record: it parses to a command that decodes to
-    wells [rcs] with volumes [qs] (two decimals), and the tracked labware lost exactly [qs] on those wells *)
+    wells [rcs] with volumes [qs] ROUNDED to two decimals ([effect_of] rounds to hundredths, as the command text
+    does), and the tracked labware lost exactly the unrounded [qs] on those wells: [qs] is determined by the
+    ledger conjunct, the decoded command agrees with it up to the rounding (at most 1/200 per well, C09_round2c_bound) *)
 Theorem C13_agree_aspirate_text : forall s k a label s' L,
   tx_lc_clean (c_liquid_class a) ->
   evo_aspirate s k a label = (s', None) -> nth_error (st_lw s) k = Some L -> wf_shape L ->
